@@ -1368,6 +1368,11 @@ Hwrite(int32 access_id, int32 length, const void *data)
     if (HTPinquire(access_rec->ddid, NULL, NULL, &data_off, &data_len) == FAIL)
         HGOTO_ERROR(DFE_INTERNAL, FAIL);
 
+    /* offsets are 32-bit signed in the file format: refuse a write that would end beyond 2^31-2
+       in the file (same bound as HPgetdiskblock); this also keeps the sums below in range */
+    if (length > 0 && data_off >= 0 && length > (INT32_MAX - 1) - data_off - access_rec->posn)
+        HGOTO_ERROR(DFE_BADLEN, FAIL);
+
     /* check validity of length and write data.
      NOTE: it is an error to attempt write past the end of the elt */
     if (length <= 0 || (!access_rec->appendable && length + access_rec->posn > data_len))
